@@ -1104,6 +1104,22 @@ func c10PerSecondGuard(c *Ctx, mClose *ssa.Function) {
 					break
 				}
 			}
+			if !good && g != mClose && len(siteIndex[g]) > 0 {
+				// no test in the helper at all: every call of it sits under a Duration > 0 test
+				all := true
+				for _, cs := range siteIndex[g] {
+					okSite := false
+					for _, s2 := range positiveFacts(cs.Block()) {
+						if isDurationField(s2) {
+							okSite = true
+						}
+					}
+					if !okSite {
+						all = false
+					}
+				}
+				good = all
+			}
 			if !good {
 				bad = append(bad, bo)
 			}
